@@ -184,7 +184,8 @@ func (ex *Exec) callModular(fi *FuncInfo, recv *Value, args []Value, st *State, 
 		ref *Term
 	}
 	var backs []copyBack
-	for name, v := range bind {
+	for _, name := range sortedKeys(bind) {
+		v := bind[name]
 		if v.Loc != nil {
 			pt := v.T.Underlying().(*types.Pointer)
 			ref := st.newRef()
@@ -1051,7 +1052,9 @@ func (ex *Exec) loadLE(st *State, ref, base *Term, t types.Type, n ast.Node) Val
 			offs := stdSizes.Offsetsof(flds)
 			for i, f := range flds {
 				fv := load(f.Type(), off+offs[i])
-				for p, x := range fv.L {
+				for _, p := range sortedKeys(fv.L) {
+					x := fv.L[p]
+					_ = x
 					v.L["."+f.Name()+p] = x
 				}
 			}
